@@ -13,14 +13,14 @@ TECHNIQUE = ("Hypothesis-generated placements x share damage x server fault plan
              "the servers busy beyond a generous message bound = LIVELOCK")
 RULE = ("each case: a C03 scenario (k<=4, N<=6, 1-5 segments, generated placement/damage/faults/schedule); with probability ~1/3 the file is 'authentic but unreadable in "
         "segment j' (the uploader is made to commit to a wrong ciphertext hash for segment j, so every decode of that segment fails its hash check); then a batch of "
-        "1-3 reads started together on one node object and 1-3 follow-up reads issued one after the other on the same node, each over a drawn range (same segment, "
+        "1-3 reads started together on one node object (up to two of them giving up: stopProducing() after the j-th delivered server message or at the n-th write) and 1-3 follow-up reads issued one after the other on the same node, each over a drawn range (same segment, "
         "other segment, whole file). Oracle: after the scheduler has run to quiescence every read Deferred has fired; no read needs more than 6000 server messages; "
         "bytes delivered are a prefix of the true range. Non-trivial = some read failed and a later read was issued on the same node, or a fault/damage was present "
         "and >=2 reads overlapped; distinct by whole case.")
 LEVEL_TEXT = "Fault and schedule search; liveness is decided as 'quiescent and unresolved' on a closed system whose scheduler and clock the harness owns."
 ASSUMPTIONS = ["termination is judged when no message is pending and no timer is left; unbounded-time liveness under an open environment is not addressed",
                "the message bound (6000 per batch for files of <=5 segments and <=6 shares) is ~20x the largest fault-free count observed"]
-REQUIRED_CLASSES = ["bad-segment", "read-failed-then-read", "concurrent", "followup-ok", "followup-err", "fault", "damage"]
+REQUIRED_CLASSES = ["reader-stopped-in-flight", "bad-segment", "read-failed-then-read", "concurrent", "followup-ok", "followup-err", "fault", "damage"]
 BUDGET = {"quick": 900, "thorough": 7200}
 MAXSTEPS = 6000
 
@@ -43,6 +43,11 @@ def cases(draw):
     base["badseg"] = draw(st.integers(0, nseg - 1)) if mode.startswith("badseg") else None
     base["batch"] = draw(st.lists(rng, min_size=1, max_size=3))
     base["follow"] = draw(st.lists(rng, min_size=1, max_size=3))
+    # a reader of the batch may give up: its consumer calls stopProducing() after the j-th server message of the batch has been delivered (answers
+    # to its share reads may still be in flight) or at its n-th write
+    base["stops"] = draw(st.lists(st.tuples(st.integers(0, 2), st.sampled_from(["step", "step", "write"]), st.integers(1, 30)).map(list), max_size=2))
+    base.pop("second", None)
+    base.pop("second_used", None)
     return base
 
 
@@ -77,11 +82,33 @@ def run_case(case, ctx):
         desc0 = "k=%d N=%d seg=%d size=%d servers=%d place=%r damage=%r faults=%r badseg=%r schedule=%r" % (
             case["k"], case["n"], case["seg"], case["size"], case["servers"], sorted(sc.placed), sorted(sc.damaged.items()), sorted(sc.faulty.items()), case.get("badseg"), case["down"][:20])
 
-        def do_batch(ranges, label):
+        def do_batch(ranges, label, stops=()):
             cons = [Consumer() for _ in ranges]
+            for (bi, how, j_) in stops:
+                if how == "write" and bi < len(cons):
+                    cons[bi].script[j_ % 4 + 1] = "stop"
             ds = [node.read(c, off, ln) for c, (off, ln) in zip(cons, ranges)]
             before = g.sched.delivered
-            res = g.sched.run_all(ds, maxsteps=MAXSTEPS)
+            stepstops = [(bi, j_) for (bi, how, j_) in stops if how == "step" and bi < len(cons)]
+
+            def stopper(m, phase, res_):
+                if phase != "delivered":
+                    return
+                for (bi, j_) in stepstops:
+                    c_ = cons[bi]
+                    if g.sched.delivered - before == j_ and c_.producer is not None and not c_.stopped:
+                        c_.stopped = True
+                        classes.add("reader-stopped-in-flight")
+                        c_.producer.stopProducing()
+            if stepstops:
+                g.sched.observers.append(stopper)
+            try:
+                res = g.sched.run_all(ds, maxsteps=MAXSTEPS)
+            finally:
+                if stepstops:
+                    g.sched.observers.remove(stopper)
+            if any(c_.stopped for c_ in cons):
+                classes.add("reader-stopped")
             used = g.sched.delivered - before
             for c, (off, ln), r in zip(cons, ranges, res):
                 want = sc.data[off:] if ln is None else sc.data[off:off + ln]
@@ -95,12 +122,12 @@ def run_case(case, ctx):
                     else:
                         ctx.fail("hang", "%s: nothing is pending (no message, no timer) but the read never completed" % desc, phase=label,
                                  after_failure=("err" in outcomes), badseg=case.get("badseg") is not None)
-                if r[0] == "ok":
+                if r[0] == "ok" and not c.stopped:
                     ctx.check(got == want, "short-success", "%s: success with %d of %d bytes" % (desc, len(got), len(want)))
             return [r[0] for r in res]
         if len(case["batch"]) > 1:
             classes.add("concurrent")
-        outcomes += do_batch(case["batch"], "batch")
+        outcomes += do_batch(case["batch"], "batch", stops=case.get("stops", []))
         for rg in case["follow"]:
             had_err = "err" in outcomes
             o = do_batch([rg], "follow-up")
